@@ -14,11 +14,11 @@ out = {
     'breaks': notes.get('breaks'),
     'needs': notes.get('needs'),
     'what_i_ran': [
-        'tools/confirm_mut.sh %s %s: patch applies to a clean worktree; pytest -> 333 passed with the patch; demo.py non-zero with the patch, 0 without' % (pid, k),
-        'git -C /repo apply patch.diff; ./check <id> --tier quick; git -C /repo checkout -- .',
+        'tools/confirm_mut(_iso).sh %s %s: patch applies to a clean worktree; pytest -> 333 passed with the patch; demo.py non-zero with the patch, 0 without' % (pid, k),
+        'checks run against the patched tree (tools/run_seeded.sh: git -C /repo apply, ./check <id> --tier quick, git -C /repo checkout -- .; or tools/run_seeded_iso.sh: the same in a scratch worktree + scratch copy of /verif via MISTLETOE_REPO)',
     ],
     'caught_by': caught,
-    'source': 'independent sub-agent given only the property text and a scratch worktree (round c)',
+    'source': 'independent sub-agent given only the property text and a scratch worktree (round %s)' % k,
 }
 (dst / 'meta.json').write_text(json.dumps(out, indent=1) + '\n')
 print('saved', dst)
